@@ -26,15 +26,16 @@ theorem array_like_check_iff (v : PyVal) :
     (∀ e, isArrayLikeCheck v = .error e → e = .badUserInput) := by
   cases v <;> simp [isArrayLikeCheck, isArrayLike]
 
-/-- `make_float_array` (under the recorded assumption on `np.array(x, dtype=float)`): the conversion succeeds
-exactly on array_likes in the documented top-down sense — rectangular nestings of float-compatible
-entries, or ndarrays — returning that shape and the entries in row-major order (`prod shape` of them);
-every failure is the library's input error -/
+/-- `make_float_array` as repaired (statement-by-statement model, under the recorded assumption on `np.array`): the
+conversion succeeds exactly on array_likes in the documented top-down sense — rectangular nestings of numbers
+(int, float, bool, nan; not `None`, not strings, not complex numbers, not other objects), or ndarrays — returning that
+shape and the entries in row-major order (`prod shape` of them); every failure is the library's input error -/
 theorem float_conversion_iff_rectangular (v : PyVal) (a : NDArr) :
     (makeFloatArray v = .ok a ↔ hasShape a.shape v = true ∧ a.data = flat v) ∧
     (makeFloatArray v = .ok a → a.data.length = prod a.shape) ∧
     (∀ e, makeFloatArray v = .error e → e = .badUserInput) := by
-  unfold makeFloatArray
+  rw [makeFloatArray_eq]
+  unfold makeFloatArraySimple
   cases hsh : shapeOf v with
   | none =>
     dsimp only
@@ -63,8 +64,10 @@ theorem array_shape_check_iff_documented (a : NDArr) (dims : List Nat) (m1 : Int
 /-- the hypothesis `0 ∉ dims` is necessary: with rank 0 allowed, `inp.shape[-1]` raises IndexError on a 0-d array
 (no setter of the regenerated table allows rank 0: `table_rejects_with_input_error`) -/
 example : checkArrayShape ⟨[], [.fin 2]⟩ [0, 1] 3 0 = .error (.foreign "IndexError") := by rfl
-example : makeFloatArray (.seq [.seq [.num 1, .bool true], .seq [.str "3", .none]]) =
-    .ok ⟨[2, 2], [.fin 1, .fin 1, .fin 3, .nan]⟩ := by rfl
+example : makeFloatArray (.seq [.seq [.num 1, .bool true], .seq [.npbool false, .nanf]]) =
+    .ok ⟨[2, 2], [.fin 1, .fin 1, .fin 0, .nan]⟩ := by rfl
+example : makeFloatArray (.seq [.num 1, .none, .num 3]) = .error .badUserInput := by rfl
+example : makeFloatArray (.seq [.num 1, .str "2", .num 3]) = .error .badUserInput := by rfl
 example : makeFloatArray (.seq [.seq [.num 1, .num 2], .seq [.num 3]]) = .error .badUserInput := by rfl
 example : makeFloatArray (.seq [.num 1, .cplx]) = .error .badUserInput := by rfl
 example : makeFloatArray (.seq [.num 1, .str "abc"]) = .error .badUserInput := by rfl
@@ -229,15 +232,36 @@ theorem accepts_iff_documented (cls attr : String) (k : Nat) (pos : Bool) (v : P
       subst hpos
       simpa using hp
 
-/-- (added by the audit) how "documented" is to be read in `accepts_iff_documented` and its siblings: `docVec` / `hasShape`
-count as float-compatible every entry that `np.array(·, dtype=float)` converts — in particular `None` (stored as nan,
-which also passes the "no value <= 0" clause) and numeric strings.  The public docstrings speak of numbers only; these
-inputs are the recorded findings `coerced-entry:None` and `coerced-entry:numeric-string`.  So the iff is "accepted ⇔
-documented format OR one of these two coerced entry kinds"; witness that the Lean predicate includes them: -/
-theorem documented_includes_coerced_entries :
-    docVec 3 true (.seq [.num 1, .none, .num 3]) = true ∧ docVec 3 false (.seq [.num 1, .str "2", .num 3]) = true ∧
-    docVec 3 false (.seq [.num 1, .str "abc", .num 3]) = false := by
-  decide
+/-- the former findings `coerced-entry:None` and `coerced-entry:numeric-string` (numpy's coercion of a `None` entry to nan
+and of a numeric string to its value was accepted; before the repair of `make_float_array` this theorem read
+`documented_includes_coerced_entries`): such entries are neither documented nor accepted any more, for every
+length, sign requirement and position of the entry — "array_like of numbers" means numbers -/
+theorem coerced_entries_rejected (cls attr : String) (k : Nat) (pos : Bool) (xs ys : List PyVal) (s : String) :
+    docVec k pos (.seq (xs ++ .none :: ys)) = false ∧ docVec k pos (.seq (xs ++ .str s :: ys)) = false ∧
+    checkVector (vecCfg cls attr k pos) (.seq (xs ++ .none :: ys)) = .error .badUserInput ∧
+    checkVector (vecCfg cls attr k pos) (.seq (xs ++ .str s :: ys)) = .error .badUserInput := by
+  have key : ∀ l : PyVal, hasShape [] l = false → docVec k pos (.seq (xs ++ l :: ys)) = false := by
+    intro l hl
+    rw [docVec_of_ne_none _ _ _ (by simp)]
+    have : hasShape [k] (.seq (xs ++ l :: ys)) = false := by
+      apply Bool.eq_false_iff.mpr
+      intro h
+      have := ((hasShape_vec_iff k _).mp h).2 l (by simp)
+      rw [hl] at this; cases this
+    simp [this]
+  have rej : ∀ v : PyVal, docVec k pos v = false → checkVector (vecCfg cls attr k pos) v = .error .badUserInput := by
+    intro v hv
+    cases hc : checkVector (vecCfg cls attr k pos) v with
+    | ok s0 =>
+      have := (accepts_iff_documented cls attr k pos v).mp ⟨s0, hc⟩
+      rw [hv] at this; cases this
+    | error e =>
+      rw [vector_error_is_bad (vecCfg cls attr k pos) (by simp [vecCfg]) (by simp [vecCfg]) v e hc]
+  exact ⟨key _ rfl, key _ rfl, rej _ (key _ rfl), rej _ (key _ rfl)⟩
+
+example : checkVector (vecCfg "Cuboid" "dimension" 3 true) (.seq [.num 1, .none, .num 3]) = .error .badUserInput :=
+  (coerced_entries_rejected "Cuboid" "dimension" 3 true [.num 1] [.num 3] "").2.2.1
+example : checkVector (vecCfg "Cuboid" "dimension" 3 true) (.seq [.num 1, .str "2", .num 3]) = .error .badUserInput := by rfl
 
 /-- the documented format read for plain numbers: a list/tuple of integers/floats is accepted iff it has
 exactly k entries, all positive where sizes are meant (the statement of this theorem before the grammar
@@ -266,8 +290,8 @@ example : checkVector (vecCfg "Cuboid" "dimension" 3 true) (.seq [.num 1, .num (
 example : checkVector (vecCfg "Cuboid" "dimension" 3 true) (.seq [.seq [.num 1, .num 2, .num 3]]) = .error .badUserInput := by rfl
 example : checkVector (vecCfg "Cuboid" "dimension" 3 true) (.arr [3] [1, 2, 3]) = .ok (.array ⟨[3], [.fin 1, .fin 2, .fin 3]⟩) := by rfl
 example : docVec 3 true (.seq [.num 1, .bool true, .num 3]) = true := by decide
-/-- docstring and code disagree: a `None` entry becomes nan and passes the "no value <= 0" test -/
-example : checkVector (vecCfg "Cuboid" "dimension" 3 true) (.seq [.num 1, .none, .num 3]) = .ok (.array ⟨[3], [.fin 1, .nan, .fin 3]⟩) := by rfl
+/-- a nan given as a float is a number: it is stored, and passes the "no value <= 0" test (`nan <= 0` is false) -/
+example : checkVector (vecCfg "Cuboid" "dimension" 3 true) (.seq [.num 1, .nanf, .num 3]) = .ok (.array ⟨[3], [.fin 1, .nan, .fin 3]⟩) := by rfl
 
 /-! ## attributes documented as "array_like, shape (n,3)": Triangle / Tetrahedron / Polyline vertices -/
 
@@ -332,12 +356,12 @@ theorem fixed_rows_stored (cls attr : String) (L : Nat) (hL : L ≠ 0) (v : PyVa
     subst hn'
     exact Or.inr ⟨rfl, by simpa [prod] using flat_length [n, 3] v hs⟩
 
-/-- `check_format_input_vertices` (Polyline.vertices): what it returns, and when -/
-theorem vertices_ok_iff (v : PyVal) (s : Stored) :
-    checkVertices v = .ok s ↔
+/-- `check_format_input_vertices` after the separator rows were replaced: what it returns, and when -/
+theorem verticesCore_ok_iff (v : PyVal) (s : Stored) :
+    checkVerticesCore v = .ok s ↔
       (v = .none ∧ s = .none) ∨
       (isArrayLike v = true ∧ ∃ n, 2 ≤ n ∧ hasShape [n, 3] v = true ∧ s = .array ⟨[n, 3], flat v⟩) := by
-  unfold checkVertices
+  unfold checkVerticesCore
   rw [verticesCfg_eq]
   cases h : checkVector (rowsCfg "input_checks" "check_format_input_vertices" 0) v with
   | error e =>
@@ -369,24 +393,93 @@ theorem vertices_ok_iff (v : PyVal) (s : Stored) :
           have := hasShape_unique _ _ v hs hsm
           rw [this]
 
-/-- C17 (Polyline.vertices): accepted ⇔ None or shape (n,3) with at least two vertices -/
+/-- `check_format_input_vertices` (Polyline.vertices): what it returns, and when — in terms of the value after
+`none_rows_to_nan` -/
+theorem vertices_ok_iff (v : PyVal) (s : Stored) :
+    checkVertices v = .ok s ↔
+      (v = .none ∧ s = .none) ∨
+      (isArrayLike v = true ∧ ∃ n, 2 ≤ n ∧ hasShape [n, 3] (noneRowsToNan v) = true ∧
+        s = .array ⟨[n, 3], flat (noneRowsToNan v)⟩) := by
+  unfold checkVertices
+  rw [vertPrep_eq, verticesCore_ok_iff, noneRowsToNan_ne_none, noneRowsToNan_arrayLike]
+
+/-- C17 (Polyline.vertices): accepted ⇔ None, or an (n,3) ndarray, or a list/tuple of n rows each of which is a triple of
+numbers or the separator row (None, None, None); n ≥ 2.  A row with one or two `None` entries, a `None` row of another
+length, `None` anywhere in a deeper nesting are rejected. -/
 theorem polyline_vertices_accepts_iff_documented (v : PyVal) :
-    (∃ s, checkVertices v = .ok s) ↔ docRows Option.none 2 v = true := by
-  by_cases hv : v = .none
-  · subst hv; simp [vertices_ok_iff, docRows]
-  · rw [docRows_of_ne_none _ _ v hv]
-    simp only [vertices_ok_iff, hv, false_and, false_or, Bool.and_eq_true, decide_eq_true_eq]
+    (∃ s, checkVertices v = .ok s) ↔ docPolyVertices v = true := by
+  cases v with
+  | none => simp [vertices_ok_iff, docPolyVertices]
+  | seq rows =>
+    simp only [vertices_ok_iff, reduceCtorEq, false_and, false_or, isArrayLike, true_and, noneRowsToNan_hasShape,
+      docPolyVertices, Bool.and_eq_true, decide_eq_true_eq, List.all_eq_true, Bool.or_eq_true]
     constructor
-    · rintro ⟨s, ha, n, hn, hs, _⟩
-      have := outerLen_of_hasShape n [3] v hs
-      rw [this]
-      exact ⟨⟨ha, hs⟩, hn⟩
-    · rintro ⟨⟨ha, hs⟩, hn⟩
-      exact ⟨_, ha, _, hn, hs, rfl⟩
+    · rintro ⟨s, n, hn, ⟨hl, _, hr⟩, _⟩
+      exact ⟨by omega, hr⟩
+    · rintro ⟨hn, hr⟩
+      exact ⟨_, rows.length, hn, ⟨rfl, by omega, hr⟩, rfl⟩
+  | arr sh d =>
+    simp only [vertices_ok_iff, reduceCtorEq, false_and, false_or, isArrayLike, true_and, noneRowsToNan, hasShape,
+      beq_iff_eq, docPolyVertices]
+    constructor
+    · rintro ⟨s, n, hn, rfl, _⟩
+      simpa using hn
+    · intro h
+      split at h
+      · rename_i n
+        exact ⟨_, n, by simpa using h, rfl, rfl⟩
+      · cases h
+  | bool b => simp [vertices_ok_iff, docPolyVertices, isArrayLike]
+  | num n => simp [vertices_ok_iff, docPolyVertices, isArrayLike]
+  | flt n => simp [vertices_ok_iff, docPolyVertices, isArrayLike]
+  | npbool b => simp [vertices_ok_iff, docPolyVertices, isArrayLike]
+  | nanf => simp [vertices_ok_iff, docPolyVertices, isArrayLike]
+  | cplx => simp [vertices_ok_iff, docPolyVertices, isArrayLike]
+  | str s => simp [vertices_ok_iff, docPolyVertices, isArrayLike]
+  | obj => simp [vertices_ok_iff, docPolyVertices, isArrayLike]
+  | rot n f => simp [vertices_ok_iff, docPolyVertices, isArrayLike]
+
+/-- what `none_rows_to_nan` stores for a row: a separator row becomes three nan, a triple of numbers is kept -/
+theorem polyline_row_stored (r : PyVal) (h : hasShape [3] r = true ∨ isNoneRow3 r = true) :
+    flat (rowNan r) = polyRowData r := by
+  unfold polyRowData
+  by_cases hn : isNoneRow3 r = true
+  · rw [(isNoneRow3_iff r).mp hn]; rfl
+  · simp only [hn, Bool.false_eq_true, if_false]
+    have h3 : hasShape [3] r = true := h.resolve_right hn
+    cases r with
+    | seq xs =>
+      unfold rowNan
+      by_cases hall : xs.all isNoneLeaf = true
+      · have hx := (hasShape_vec_iff 3 xs).mp h3
+        match xs, hx with
+        | [a, b, c], hx =>
+          have := hx.2 a (by simp)
+          simp only [List.all_cons, Bool.and_eq_true] at hall
+          cases a <;> simp_all [isNoneLeaf, hasShape, isEntry]
+      · simp [hall]
+    | _ => rfl
+
+/-- C17 (Polyline.vertices, stored value): an accepted list of rows is stored as the (n,3) array of its rows, a
+separator row as (nan, nan, nan) -/
+theorem polyline_vertices_stored (rows : List PyVal) (s : Stored) (h : checkVertices (.seq rows) = .ok s) :
+    s = .array ⟨[rows.length, 3], flatL (rows.map rowNan)⟩ ∧
+      ∀ r ∈ rows, flat (rowNan r) = polyRowData r ∧ (polyRowData r).length = 3 := by
+  rcases (vertices_ok_iff _ s).mp h with ⟨h0, _⟩ | ⟨_, n, hn, hs, rfl⟩
+  · cases h0
+  · obtain ⟨hl, hn0, hr⟩ := (noneRowsToNan_hasShape rows n).mp hs
+    subst hl
+    have hne : rows ≠ [] := by rintro rfl; exact hn0 rfl
+    have hraw := rawShape_rows rows [3] hne (fun r hx => rawShape_row3 r (hr r hx))
+    refine ⟨by simp only [noneRowsToNan, hraw, flat], ?_⟩
+    intro r hrm
+    refine ⟨polyline_row_stored r (hr r hrm), ?_⟩
+    rw [← polyline_row_stored r (hr r hrm)]
+    simpa [prod] using flat_length [3] (rowNan r) ((rowNan_hasShape3 r).mpr (hr r hrm))
 
 /-- C17: `check_format_input_vertices` rejects only with the library's input error -/
-theorem vertices_error_is_bad (v : PyVal) (e : Err) (h : checkVertices v = .error e) : e = .badUserInput := by
-  unfold checkVertices at h
+theorem verticesCore_error_is_bad (v : PyVal) (e : Err) (h : checkVerticesCore v = .error e) : e = .badUserInput := by
+  unfold checkVerticesCore at h
   cases hc : checkVector verticesCfg v with
   | error e' =>
     simp only [hc] at h
@@ -402,11 +495,21 @@ theorem vertices_error_is_bad (v : PyVal) (e : Err) (h : checkVertices v = .erro
       · injection h with h; exact h.symm
       · cases h
 
+
+/-- C17: `check_format_input_vertices` rejects only with the library's input error -/
+theorem vertices_error_is_bad (v : PyVal) (e : Err) (h : checkVertices v = .error e) : e = .badUserInput :=
+  verticesCore_error_is_bad _ e h
+
 example : checkVector triangleCfg (.seq [.seq [.num 0, .num 0, .num 0], .seq [.num 1, .num 0, .num 0], .seq [.num 0, .num 1, .num 0]])
     = .ok (.array ⟨[3, 3], [.fin 0, .fin 0, .fin 0, .fin 1, .fin 0, .fin 0, .fin 0, .fin 1, .fin 0]⟩) := by rfl
 example : docRows (some 3) 0 (.seq [.seq [.num 0, .num 0, .num 0], .seq [.num 1, .num 0, .num 0], .seq [.num 0, .num 1, .num 0]]) = true := by decide
 example : checkVector triangleCfg (.seq [.seq [.num 0, .num 0, .num 0], .seq [.num 1, .num 0, .num 0]]) = .error .badUserInput := by rfl
 example : checkVertices (.seq [.seq [.num 0, .num 0, .num 0]]) = .error .badUserInput := by rfl
+example : checkVertices (.seq [.seq [.num 0, .num 0, .num 0], .seq [.none, .none, .none], .seq [.num 1, .num 0, .num 0]]) =
+    .ok (.array ⟨[3, 3], [.fin 0, .fin 0, .fin 0, .nan, .nan, .nan, .fin 1, .fin 0, .fin 0]⟩) := by rfl
+example : checkVertices (.seq [.seq [.num 0, .num 0, .num 0], .seq [.num 1, .none, .num 0]]) = .error .badUserInput := by rfl
+example : checkVertices (.seq [.seq [.none, .none], .seq [.none, .none]]) = .error .badUserInput := by rfl
+example : docPolyVertices (.seq [.seq [.num 0, .num 0, .num 0], .seq [.none, .none, .none], .seq [.num 1, .num 0, .num 0]]) = true := by decide
 example : checkVertices (.arr [2, 3] [0, 0, 0, 1, 1, 1]) = .ok (.array ⟨[2, 3], [.fin 0, .fin 0, .fin 0, .fin 1, .fin 1, .fin 1]⟩) := by rfl
 
 /-! ## `position` (class_BaseGeo.py): shape (3,) or (m,3), stored as (m,3) -/
@@ -676,12 +779,14 @@ theorem cylseg_accepts_iff_documented_partial (v : PyVal) (hnan : FVal.nan ∉ f
         exact ⟨_, ha, hs, r1, r2, h, p1, p2, hflat, by simpa using hm, rfl⟩
       · cases hm
 
-/-- the exclusion of None entries in `cylseg_accepts_iff_documented_partial` is necessary: None becomes
-nan, every comparison with nan is false, so (1, 2, 1, None, 90) passes all five conditions -/
+/-- the exclusion of nan entries in `cylseg_accepts_iff_documented_partial` is necessary: every comparison with nan
+is false, so (1, 2, 1, nan, 90) passes all five conditions.  (A `None` entry, which numpy used to turn into nan, is
+refused since the repair of `make_float_array`; a nan given as a float still gets through.) -/
 theorem cylseg_accepts_nan :
-    checkCylSeg (.seq [.num 1, .num 2, .num 1, .none, .num 90]) =
+    checkCylSeg (.seq [.num 1, .num 2, .num 1, .nanf, .num 90]) =
       .ok (.array ⟨[5], [.fin 1, .fin 2, .fin 1, .nan, .fin 90]⟩) ∧
-    docSegment (.seq [.num 1, .num 2, .num 1, .none, .num 90]) = false := ⟨by rfl, by decide⟩
+    docSegment (.seq [.num 1, .num 2, .num 1, .nanf, .num 90]) = false ∧
+    checkCylSeg (.seq [.num 1, .num 2, .num 1, .none, .num 90]) = .error .badUserInput := ⟨by rfl, by decide, by rfl⟩
 
 /-- docstring and code disagree: the class docstring requires r1 < r2 and phi1 < phi2, the code accepts equality -/
 theorem cylseg_accepts_degenerate :
@@ -778,11 +883,41 @@ theorem scalar_accepts_iff_documented (an fn : Bool) (v : PyVal) :
       refine ⟨⟨fun _ => rfl, fun _ => ⟨_, rfl⟩⟩, ?_, ?_⟩
       · intro h; cases h
       · intro s h; injection h with h; exact h.symm
+  | flt n =>
+    have key : checkScalar an fn (.flt n) =
+        if (fn && decide (n < 0)) = true then .error .badUserInput else .ok (.scalar (.fin n)) := by
+      cases an <;> cases fn <;> simp [checkScalar, isNumber, pyFloat, FVal.lt]
+    rw [key]
+    by_cases hb : (fn && decide (n < 0)) = true
+    · have hdoc : docScalar an fn (.flt n) = false := by
+        simp only [Bool.and_eq_true, decide_eq_true_eq] at hb
+        obtain ⟨rfl, hn⟩ := hb
+        simp only [docScalar, Bool.not_true, Bool.false_or, decide_eq_false_iff_not]
+        omega
+      rw [if_pos hb, hdoc]
+      refine ⟨⟨?_, ?_⟩, fun _ => rfl, ?_⟩
+      · rintro ⟨_, h⟩; cases h
+      · intro h; cases h
+      · intro s h; cases h
+    · have hdoc : docScalar an fn (.flt n) = true := by
+        simp only [Bool.and_eq_true, decide_eq_true_eq, not_and] at hb
+        cases fn with
+        | false => simp [docScalar]
+        | true =>
+          have := hb rfl
+          simp only [docScalar, Bool.not_true, Bool.false_or, decide_eq_true_eq]
+          omega
+      rw [if_neg hb, hdoc]
+      refine ⟨⟨fun _ => rfl, fun _ => ⟨_, rfl⟩⟩, ?_, ?_⟩
+      · intro h; cases h
+      · intro s h; injection h with h; exact h.symm
   | none => cases an <;> cases fn <;> simp [checkScalar, docScalar, isNumber, scalarValue, eq_comm]
+  | nanf => cases an <;> cases fn <;> simp [checkScalar, docScalar, isNumber, pyFloat, scalarValue, FVal.lt, eq_comm]
   | bool b => cases an <;> cases fn <;> cases b <;> simp [checkScalar, docScalar, isNumber, pyFloat, scalarValue, FVal.lt, eq_comm]
   | npbool b => cases an <;> cases fn <;> simp [checkScalar, docScalar, isNumber]
   | str t => cases an <;> cases fn <;> simp [checkScalar, docScalar, isNumber]
   | obj => cases an <;> cases fn <;> simp [checkScalar, docScalar, isNumber]
+  | rot n f => cases an <;> cases fn <;> simp [checkScalar, docScalar, isNumber]
   | seq xs => cases an <;> cases fn <;> simp [checkScalar, docScalar, isNumber]
   | arr sh d => cases an <;> cases fn <;> simp [checkScalar, docScalar, isNumber]
 
@@ -797,12 +932,20 @@ theorem scalar_never_foreign (an fn : Bool) (v : PyVal) (e : Err) (h : checkScal
       cases an <;> cases fn <;> simp [checkScalar, isNumber, pyFloat, FVal.lt]
     rw [key] at h
     split at h <;> simp_all
+  | flt n =>
+    have key : checkScalar an fn (.flt n) =
+        if (fn && decide (n < 0)) = true then .error .badUserInput else .ok (.scalar (.fin n)) := by
+      cases an <;> cases fn <;> simp [checkScalar, isNumber, pyFloat, FVal.lt]
+    rw [key] at h
+    split at h <;> simp_all
   | cplx => cases an <;> cases fn <;> simp_all [checkScalar, isNumber, pyFloat]
   | none => cases an <;> cases fn <;> simp_all [checkScalar, isNumber]
+  | nanf => cases an <;> cases fn <;> simp_all [checkScalar, isNumber, pyFloat, FVal.lt]
   | bool b => cases an <;> cases fn <;> cases b <;> simp_all [checkScalar, isNumber, pyFloat, FVal.lt]
   | npbool b => cases an <;> cases fn <;> simp_all [checkScalar, isNumber]
   | str t => cases an <;> cases fn <;> simp_all [checkScalar, isNumber]
   | obj => cases an <;> cases fn <;> simp_all [checkScalar, isNumber]
+  | rot n f => cases an <;> cases fn <;> simp_all [checkScalar, isNumber]
   | seq xs => cases an <;> cases fn <;> simp_all [checkScalar, isNumber]
   | arr sh d => cases an <;> cases fn <;> simp_all [checkScalar, isNumber]
 
@@ -815,6 +958,8 @@ example : checkScalar true true (.bool true) = .ok (.scalar (.fin 1)) := by rfl
 example : checkScalar true true (.npbool true) = .error .badUserInput := by rfl
 example : checkScalar true true .cplx = .error .badUserInput := by rfl
 example : checkScalar false false .none = .error .badUserInput := by rfl
+/-- a nan is a float and not negative: `Sphere(diameter=float('nan'))` is accepted (observed on the real code) -/
+theorem scalar_accepts_nan : checkScalar true true .nanf = .ok (.scalar .nan) := by rfl
 
 /-! ## check_format_input_vector2 (TriangularMesh.from_mesh) -/
 
@@ -823,7 +968,7 @@ on the axes that both the array and `shape` have, the sizes given in `shape` are
 theorem vector2_ok_iff (shape : List (Option Nat)) (v : PyVal) (s : Stored) :
     checkVector2 shape v = .ok s ↔
       (isArrayLike v = true ∧ ∃ sh, hasShape sh v = true ∧ shapeAgrees sh shape ∧ s = .array ⟨sh, flat v⟩) := by
-  unfold checkVector2 isArrayLikeCheck makeFloatArray
+  rw [checkVector2]; simp only [makeFloatArray_eq]; unfold isArrayLikeCheck makeFloatArraySimple
   by_cases ha : isArrayLike v = true
   · simp only [ha, Bool.not_true, Bool.false_eq_true, if_false, true_and]
     cases hsh : shapeOf v with
@@ -885,7 +1030,7 @@ theorem vector2_accepts_undocumented :
 not float-convertible) or the ValueError of the shape loop -/
 theorem vector2_error_kinds (shape : List (Option Nat)) (v : PyVal) (e : Err) (h : checkVector2 shape v = .error e) :
     e = .badUserInput ∨ e = .foreign "ValueError" := by
-  unfold checkVector2 isArrayLikeCheck makeFloatArray at h
+  rw [checkVector2] at h; simp only [makeFloatArray_eq] at h; unfold isArrayLikeCheck makeFloatArraySimple at h
   by_cases ha : isArrayLike v = true
   · simp only [ha, Bool.not_true, Bool.false_eq_true, if_false] at h
     cases hsh : shapeOf v with
@@ -904,6 +1049,208 @@ theorem vector2_error_kinds (shape : List (Option Nat)) (v : PyVal) (e : Err) (h
 
 example : checkVector2 meshShape (.arr [1, 3, 3] [0, 0, 0, 1, 0, 0, 0, 1, 0]) =
     .ok (.array ⟨[1, 3, 3], [.fin 0, .fin 0, .fin 0, .fin 1, .fin 0, .fin 0, .fin 0, .fin 1, .fin 0]⟩) := by rfl
+
+/-! ## arguments of move / rotate / getB: start, degrees, field, output, anchor, angle, axis, orientation -/
+
+/-- `start`: accepted ⇔ an int (bool included) or the string 'auto'; floats (also integer-valued ones), numpy.bool_, None, other
+strings, sequences are refused with the library's input error -/
+theorem start_accepts_iff_documented (v : PyVal) :
+    ((∃ s, checkStart v = .ok s) ↔ docStart v = true) ∧ (∀ e, checkStart v = .error e → e = .badUserInput) := by
+  cases v <;> simp [checkStart, docStart]
+  all_goals (split <;> simp_all)
+
+/-- `degrees`: accepted ⇔ a Python bool (numpy.bool_, 0 and 1 are refused) -/
+theorem degrees_accepts_iff_documented (v : PyVal) :
+    ((∃ s, checkDegrees v = .ok s) ↔ docDegrees v = true) ∧ (∀ e, checkDegrees v = .error e → e = .badUserInput) := by
+  cases v <;> simp [checkDegrees, docDegrees]
+
+/-- `field`: accepted ⇔ one of the strings "B", "H", "M", "J" -/
+theorem field_accepts_iff_documented (v : PyVal) :
+    ((∃ s, checkField v = .ok s) ↔ docField v = true) ∧ (∀ e, checkField v = .error e → e = .badUserInput) := by
+  cases v <;> simp [checkField, docField, or_assoc]
+  all_goals (split <;> simp_all [or_assoc])
+
+/-- `output`: accepted ⇔ "ndarray" or "dataframe" — but every rejection is a ValueError, not the library's input error
+(pinned by tests/test_getBH_interfaces.py::test_getBH_bad_output_type) -/
+theorem output_accepts_iff_documented (v : PyVal) :
+    ((∃ s, checkOutput v = .ok s) ↔ docOutput v = true) ∧ (∀ e, checkOutput v = .error e → e = .foreign "ValueError") := by
+  cases v <;> simp [checkOutput, docOutput]
+  all_goals (split <;> simp_all)
+
+/-- witness: a bad `output` raises a foreign error -/
+theorem output_rejection_is_foreign : checkOutput (.num 1) = .error (.foreign "ValueError") := rfl
+
+theorem anchor_ok_iff (v : PyVal) (s : Stored) :
+    checkAnchor v = .ok s ↔
+      (isZero v = true ∧ s = .array ⟨[3], [.fin 0, .fin 0, .fin 0]⟩) ∨ (v = .none ∧ s = .none) ∨
+      (isArrayLike v = true ∧ ∃ sh, hasShape sh v = true ∧ shapeCond [1, 2] 3 0 sh ∧ s = .array ⟨sh, flat v⟩) := by
+  unfold checkAnchor
+  by_cases hz : (isNumber v && isZeroNumber v) = true
+  · have hz' : isZero v = true := by cases v <;> simp_all [isNumber, isZeroNumber, isZero]
+    have hna : isArrayLike v = false := by cases v <;> simp_all [isNumber, isArrayLike]
+    have hnn : v ≠ .none := by rintro rfl; simp [isNumber] at hz
+    simp only [hz, if_true, Except.ok.injEq, hz', true_and, hnn, false_and, hna, Bool.false_eq_true, or_false]
+    exact eq_comm
+  · have hz' : isZero v = false := by
+      cases v <;> simp_all [isNumber, isZeroNumber, isZero]
+      all_goals (split <;> simp_all)
+    simp only [hz, Bool.false_eq_true, if_false, hz', false_and, false_or]
+    rw [vector_ok_iff anchorCfg (by simp [anchorCfg]) rfl]
+    simp [anchorCfg]
+
+/-- `anchor`: accepted ⇔ None, the number 0, or an array_like of shape (3,) or (n,3) — where the code also lets the EMPTY
+(0,3) array through (finding: `rotate_from_angax(45, 'z', anchor=np.zeros((0,3)))` then fails with a ValueError) -/
+theorem anchor_accepts_iff_documented (v : PyVal) :
+    (∃ s, checkAnchor v = .ok s) ↔ (docAnchor v = true ∨ hasShape [0, 3] v = true) := by
+  simp only [anchor_ok_iff]
+  by_cases hn : v = .none
+  · subst hn; exact ⟨fun _ => Or.inl rfl, fun _ => ⟨.none, Or.inr (Or.inl ⟨rfl, rfl⟩)⟩⟩
+  have hdoc : docAnchor v = (isZero v || (isArrayLike v && (hasShape [3] v || (hasShape [outerLen v, 3] v && decide (1 ≤ outerLen v))))) := by
+    cases v <;> first | (exact absurd rfl hn) | rfl
+  rw [hdoc]
+  simp only [hn, false_and, false_or, Bool.or_eq_true, Bool.and_eq_true, decide_eq_true_eq]
+  constructor
+  · rintro ⟨s, h | ⟨ha, sh, hs, hc, _⟩⟩
+    · exact Or.inl (Or.inl h.1)
+    · rcases (shapeCond_position sh).mp hc with rfl | ⟨m, rfl⟩
+      · exact Or.inl (Or.inr ⟨ha, Or.inl hs⟩)
+      · have ho := outerLen_of_hasShape m [3] v hs
+        by_cases hm : m = 0
+        · subst hm; exact Or.inr hs
+        · exact Or.inl (Or.inr ⟨ha, Or.inr ⟨by rw [ho]; exact hs, by omega⟩⟩)
+  · rintro ((hz | ⟨ha, h3 | ⟨hs, _⟩⟩) | h0)
+    · exact ⟨_, Or.inl ⟨hz, rfl⟩⟩
+    · exact ⟨_, Or.inr ⟨ha, [3], h3, (shapeCond_position _).mpr (Or.inl rfl), rfl⟩⟩
+    · exact ⟨_, Or.inr ⟨ha, _, hs, (shapeCond_position _).mpr (Or.inr ⟨_, rfl⟩), rfl⟩⟩
+    · have ha : isArrayLike v = true := by cases v <;> simp_all [hasShape, isArrayLike]
+      exact ⟨_, Or.inr ⟨ha, _, h0, (shapeCond_position _).mpr (Or.inr ⟨_, rfl⟩), rfl⟩⟩
+
+/-- witness (finding `anchor-accepts-empty`): the empty (0,3) array is not a documented anchor and is accepted -/
+theorem anchor_accepts_empty :
+    checkAnchor (.arr [0, 3] []) = .ok (.array ⟨[0, 3], []⟩) ∧ docAnchor (.arr [0, 3] []) = false := ⟨by rfl, by decide⟩
+
+theorem anchor_error_is_bad (v : PyVal) (e : Err) (h : checkAnchor v = .error e) : e = .badUserInput := by
+  unfold checkAnchor at h
+  split at h
+  · cases h
+  · exact vector_error_is_bad anchorCfg (by simp [anchorCfg]) (by simp [anchorCfg]) v e h
+
+/-- `angle`: every real number (int, float, bool, nan) is accepted and stored as its float; a complex number raises the
+TypeError of `float(inp)` (finding `foreign-error:angle:TypeError`); everything else goes through the vector validator
+for shape (n,), n ≥ 0 -/
+theorem angle_accepts_iff_documented (v : PyVal) :
+    (∃ s, checkAngle v = .ok s) ↔ docAngle v = true := by
+  unfold checkAngle docAngle
+  by_cases hnum : isNumber v = true
+  · have hna : isArrayLike v = false := by cases v <;> simp_all [isNumber, isArrayLike]
+    cases v <;> simp_all [isNumber, pyFloat, isRealNumber]
+  · have hr : isRealNumber v = false := by cases v <;> simp_all [isNumber, isRealNumber]
+    simp only [hnum, Bool.false_eq_true, if_false, hr, Bool.false_or, Bool.and_eq_true]
+    constructor
+    · rintro ⟨s, h⟩
+      rcases (vector_ok_iff angleCfg (by simp [angleCfg]) rfl v s).mp h with ⟨h0, _⟩ | ⟨ha, sh, hs, hc, _⟩
+      · simp [angleCfg] at h0
+      · obtain ⟨hd, _⟩ := hc
+        simp only [angleCfg, List.mem_singleton] at hd
+        match sh, hd with
+        | [n], _ => exact ⟨ha, by rw [outerLen_of_hasShape n [] v hs]; exact hs⟩
+    · rintro ⟨ha, hs⟩
+      exact ⟨_, (vector_ok_iff angleCfg (by simp [angleCfg]) rfl v _).mpr
+        (Or.inr ⟨ha, _, hs, ⟨by simp [angleCfg], Or.inl rfl, Or.inl rfl⟩, by simp [angleCfg], rfl⟩)⟩
+
+/-- the rejections of `angle`: the library's input error, except for a complex number -/
+theorem angle_error_kinds (v : PyVal) (e : Err) (h : checkAngle v = .error e) :
+    e = .badUserInput ∨ (v = .cplx ∧ e = .foreign "TypeError") := by
+  unfold checkAngle at h
+  split at h
+  · cases v <;> simp_all [isNumber, pyFloat]
+  · exact Or.inl (vector_error_is_bad angleCfg (by simp [angleCfg]) (by simp [angleCfg]) v e h)
+
+/-- witness (finding `foreign-error:angle:TypeError`): `rotate_from_angax(1j, 'z')` raises TypeError -/
+theorem angle_complex_is_foreign : checkAngle .cplx = .error (.foreign "TypeError") := rfl
+
+theorem axis_vec_ok_iff (v : PyVal) (s : Stored) :
+    checkVector axisCfg v = .ok s ↔ (isArrayLike v = true ∧ hasShape [3] v = true ∧ s = .array ⟨[3], flat v⟩) := by
+  rw [vector_ok_iff axisCfg (by simp [axisCfg]) rfl]
+  simp only [axisCfg, Bool.false_eq_true, false_and, false_or, false_implies, true_and]
+  have : ∀ sh, shapeCond [1] 3 0 sh ↔ sh = [3] := fun sh => shapeCond_vec 3 sh
+  constructor
+  · rintro ⟨ha, sh, hs, hc, rfl⟩
+    rw [(this sh).mp hc] at hs ⊢
+    exact ⟨ha, hs, rfl⟩
+  · rintro ⟨ha, hs, rfl⟩
+    exact ⟨ha, [3], hs, (this _).mpr rfl, rfl⟩
+
+/-- `axis`: accepted ⇔ one of "x", "y", "z", or an array_like of three numbers that is not (0,0,0); every rejection is the
+library's input error.  (nan entries pass: `nan == 0` is false; the rotation is then refused by the finiteness check of
+`check_format_input_orientation`.) -/
+theorem axis_accepts_iff_documented (v : PyVal) :
+    ((∃ s, checkAxis v = .ok s) ↔ docAxis v = true) ∧ (∀ e, checkAxis v = .error e → e = .badUserInput) := by
+  have gen : ∀ w : PyVal, ((∃ s, axisVec w = .ok s) ↔ docAxisVec w = true) ∧ (∀ e, axisVec w = .error e → e = .badUserInput) := by
+    intro w
+    unfold axisVec docAxisVec
+    cases hc : checkVector axisCfg w with
+    | error e' =>
+      have hbad := vector_error_is_bad axisCfg (by simp [axisCfg]) (by simp [axisCfg]) w e' hc
+      dsimp only
+      refine ⟨⟨fun h => (by obtain ⟨_, h⟩ := h; cases h), ?_⟩, fun e h => (by injection h with h; rw [← h]; exact hbad)⟩
+      intro hdoc
+      simp only [Bool.and_eq_true] at hdoc
+      have := (axis_vec_ok_iff w _).mpr ⟨hdoc.1.1, hdoc.1.2, rfl⟩
+      rw [hc] at this; cases this
+    | ok s0 =>
+      obtain ⟨ha, hs, rfl⟩ := (axis_vec_ok_iff w s0).mp hc
+      simp only [ha, hs, Bool.true_and]
+      by_cases hz : (flat w).all (· == FVal.fin 0) = true
+      · simp [hz]
+      · simp [hz]
+  cases v with
+  | str t =>
+    simp only [checkAxis, docAxis]
+    by_cases hx : t = "x"
+    · subst hx; simp
+    by_cases hy : t = "y"
+    · subst hy; simp
+    by_cases hzz : t = "z"
+    · subst hzz; simp
+    simp [hx, hy, hzz]
+  | none => simpa only [checkAxis, docAxis] using gen .none
+  | bool b => simpa only [checkAxis, docAxis] using gen (.bool b)
+  | num n => simpa only [checkAxis, docAxis] using gen (.num n)
+  | flt n => simpa only [checkAxis, docAxis] using gen (.flt n)
+  | npbool b => simpa only [checkAxis, docAxis] using gen (.npbool b)
+  | nanf => simpa only [checkAxis, docAxis] using gen .nanf
+  | cplx => simpa only [checkAxis, docAxis] using gen .cplx
+  | obj => simpa only [checkAxis, docAxis] using gen .obj
+  | rot n f => simpa only [checkAxis, docAxis] using gen (.rot n f)
+  | seq xs => simpa only [checkAxis, docAxis] using gen (.seq xs)
+  | arr sh d => simpa only [checkAxis, docAxis] using gen (.arr sh d)
+
+/-- `orientation` (attribute and constructor: init_format; move/rotate argument: not): accepted ⇔ None or a scipy Rotation
+whose quaternions are all finite (repo commit c681ce5) and, for the attribute, not empty; stored: one unit quaternion for None,
+the n quaternions of the Rotation otherwise; every rejection is the library's input error -/
+theorem orientation_accepts_iff_documented (isAttr : Bool) (v : PyVal) :
+    ((∃ s, checkOrientation isAttr v = .ok s) ↔ docOrientation isAttr v = true) ∧
+    (∀ e, checkOrientation isAttr v = .error e → e = .badUserInput) ∧
+    (∀ s, checkOrientation isAttr v = .ok s → s = .quats (match v with | .rot n _ => n | _ => 1)) := by
+  cases v <;> simp [checkOrientation, docOrientation]
+  rename_i n f
+  cases f <;> cases isAttr <;> simp
+  all_goals (by_cases hn : n = 0 <;> simp [hn])
+  all_goals (intro s h; exact h.symm)
+
+example : checkStart (.flt 1) = .error .badUserInput := by rfl
+example : checkStart (.bool true) = .ok .none := by rfl
+example : checkStart (.str "auto") = .ok .none := by simp [checkStart]
+example : checkDegrees (.npbool true) = .error .badUserInput := by rfl
+example : checkAnchor (.bool false) = .ok (.array ⟨[3], [.fin 0, .fin 0, .fin 0]⟩) := by rfl
+example : checkAnchor (.seq [.num 1, .num 2, .num 3]) = .ok (.array ⟨[3], [.fin 1, .fin 2, .fin 3]⟩) := by rfl
+example : checkAngle (.seq []) = .ok (.array ⟨[0], []⟩) := by rfl
+example : checkAxis (.seq [.num 0, .flt 0, .num 0]) = .error .badUserInput := by rfl
+example : checkAxis (.seq [.nanf, .num 0, .num 0]) = .ok (.array ⟨[3], [.nan, .fin 0, .fin 0]⟩) := by rfl
+example : checkOrientation true (.rot 0 true) = .error .badUserInput := by rfl
+example : checkOrientation false (.rot 0 true) = .ok (.quats 0) := by rfl
+example : checkOrientation false (.rot 2 false) = .error .badUserInput := by rfl
 
 /-! ## rejected assignments change nothing -/
 
@@ -1025,7 +1372,8 @@ theorem table_other_validators :
 
 /-- the calls of the generic vector validator inside check_format_input_vertices and
 check_format_input_cylinder_segment carry the arguments the model uses -/
-theorem inner_is_modelled : verticesCfg ∈ Attr.inner ∧ segmentCfg ∈ Attr.inner := by
+theorem inner_is_modelled : verticesCfg ∈ Attr.inner ∧ segmentCfg ∈ Attr.inner ∧ anchorCfg ∈ Attr.inner ∧ axisCfg ∈ Attr.inner ∧
+    angleCfg ∈ Attr.inner := by
   decide
 
 /-- C17 (every vector attribute of the regenerated table, never a foreign error): whatever value is
@@ -1056,14 +1404,23 @@ modelled by hand in Model/Validators.lean, as the source states it now -/
 theorem skeleton_is_modelled :
     Attr.skeleton =
       [ ("is_array_like", ["if not isinstance(inp, (list, tuple, np.ndarray))", "  raise MagpylibBadUserInput"]),
-        ("make_float_array", ["try", "  inp_array = np.array(inp, dtype=float)", "except Exception", "  raise MagpylibBadUserInput", "return inp_array"]),
+        ("make_float_array", ["try", "  arr = inp if isinstance(inp, np.ndarray) else np.array(inp)", "  kind = arr.dtype.kind", "  if kind not in 'fiub'", "    if kind != 'O' or not all((isinstance(x, (numbers.Number, np.bool_)) for x in arr.flat))", "      bad = {'O': 'None or other objects that are not numbers', 'U': 'strings', 'S': 'bytes'}.get(...)", "      raise TypeError", "  if arr is inp", "    inp_array = np.array(arr, dtype=float)", "  else", "    inp_array = np.asarray(arr, dtype=float)", "except Exception", "  raise MagpylibBadUserInput", "return inp_array"]),
+        ("none_rows_to_nan", ["try", "  arr = np.array(inp)", "  if arr.dtype.kind == 'O' and arr.ndim == 2", "    arr[np.equal(arr, None).all(axis=1)] = np.nan", "except Exception", "  return inp", "return arr"]),
         ("check_array_shape", ["if inp.ndim in dims", "  if shape_m1 == 'any' or inp.shape[-1] == shape_m1", "    if length is None or len(inp) == length", "      return None", "raise MagpylibBadUserInput"]),
         ("check_format_input_scalar", ["if allow_None", "  if inp is None", "    return None", "if not isinstance(inp, numbers.Number)", "  raise MagpylibBadUserInput", "try", "  inp = float(inp)", "except (TypeError, OverflowError)", "  raise MagpylibBadUserInput", "if forbid_negative", "  if inp < 0", "    raise MagpylibBadUserInput", "return inp"]),
         ("check_format_input_vector", ["if allow_None", "  if inp is None", "    return None", "is_array_like(...)", "inp = make_float_array(...)", "check_array_shape(...)", "if isinstance(reshape, tuple)", "  if inp.size == 0", "    raise MagpylibBadUserInput", "  return np.reshape(inp, reshape)", "if forbid_negative0", "  if np.any(inp <= 0)", "    raise MagpylibBadUserInput", "return inp"]),
         ("check_format_input_vector2", ["is_array_like(...)", "inp = make_float_array(...)", "for (d1, d2) in zip(inp.shape, shape)", "  if d2 is not None", "    if d1 != d2", "      raise ValueError", "return inp"]),
-        ("check_format_input_vertices", ["inp = check_format_input_vector(...)", "if inp is not None", "  if inp.shape[0] < 2", "    raise MagpylibBadUserInput", "return inp"]),
+        ("check_format_input_vertices", ["if isinstance(inp, (list, tuple))", "  inp = none_rows_to_nan(inp)", "inp = check_format_input_vector(...)", "if inp is not None", "  if inp.shape[0] < 2", "    raise MagpylibBadUserInput", "return inp"]),
+        ("check_start_type", ["if not (isinstance(inp, (int, np.integer)) or (isinstance(inp, str) and inp == 'auto'))", "  raise MagpylibBadUserInput"]),
+        ("check_degree_type", ["if not isinstance(inp, bool)", "  raise MagpylibBadUserInput"]),
+        ("check_field_input", ["allowed = tuple('BHMJ')", "if not (isinstance(inp, str) and inp in allowed)", "  raise MagpylibBadUserInput"]),
+        ("check_getBH_output_type", ["acceptable = ('ndarray', 'dataframe')", "if output not in acceptable", "  raise ValueError", "if output == 'dataframe'", "  try", "  except ImportError", "    raise ModuleNotFoundError", "return output"]),
+        ("check_format_input_anchor", ["if isinstance(inp, numbers.Number) and inp == 0", "  return np.array((0.0, 0.0, 0.0))", "return check_format_input_vector(inp, dims=(1, 2), shape_m1=3, sig_name='anchor', sig_type='`None` or `0` or array_like (list, tuple, ndarray) with shape (3,)', allow_None=True)"]),
+        ("check_format_input_angle", ["if isinstance(inp, numbers.Number)", "  return float(inp)", "return check_format_input_vector(inp, dims=(1,), shape_m1='any', sig_name='angle', sig_type='int, float or array_like (list, tuple, ndarray) with shape (n,)')"]),
+        ("check_format_input_axis", ["if isinstance(inp, str)", "  if inp == 'x'", "    return np.array((1, 0, 0))", "  if inp == 'y'", "    return np.array((0, 1, 0))", "  if inp == 'z'", "    return np.array((0, 0, 1))", "  raise MagpylibBadUserInput", "inp = check_format_input_vector(...)", "if np.all(inp == 0)", "  raise MagpylibBadUserInput", "return inp"]),
+        ("check_format_input_orientation", ["if not isinstance(inp, (Rotation, type(None)))", "  raise MagpylibBadUserInput", "if inp is None", "  inpQ = np.array((0, 0, 0, 1))", "  inp = Rotation.from_quat(inpQ)", "else", "  inpQ = inp.as_quat()", "  if not np.all(np.isfinite(inpQ))", "    raise MagpylibBadUserInput", "if init_format", "  if inpQ.size == 0", "    raise MagpylibBadUserInput", "  return np.reshape(inpQ, (-1, 4))", "return (inp, inpQ)"]),
         ("Sensor.pixel", ["pixel = check_format_input_vector(...)", "if pixel is not None and pixel.size == 0", "  raise MagpylibBadUserInput", "self._pixel = pixel"]),
         ("Sensor.handedness", ["if not (isinstance(val, str) and val in {'right', 'left'})", "  raise MagpylibBadUserInput", "self._handedness = val"]) ] := by
-  decide
+  rfl
 
 end MagpyVerif.C17
